@@ -72,7 +72,7 @@ func c38Hists(tier string) int     { return scale(tier, 24, 64) }
 func c38StepHists(tier string) int { return scale(tier, 8, 16) }
 
 // c38BigHists is the number of histories in which more miners run the key generation than max_n allows into a magic block.
-func c38BigHists(tier string) int { return scale(tier, 8, 24) }
+func c38BigHists(tier string) int { return scale(tier, 16, 48) }
 
 const c38SilentTopPolicy = "top-staked-previous-silent-in-publish"
 
@@ -411,6 +411,12 @@ func (c *c38) register(a *actor) result {
 		"stake_pool":   map[string]interface{}{"settings": map[string]interface{}{"delegate_wallet": c.w.Clients[a.Port%len(c.w.Clients)].ID, "service_charge": 0.1, "num_delegates": 10}},
 	}
 	res := c.exec(a.W, fn, in, nil, 0)
+	if res.OK && a.Registered && a.Stake > 0 {
+		// a node that registers again (hostile acts) is not staked again where the stake order matters: a.Stake stays what the
+		// contract holds for the node
+		c.logf("r%d %s %s again -> ok=%v %s", c.round, fn, a.W.Name, res.OK, trunc(res.Output, 80))
+		return res
+	}
 	if res.OK {
 		a.Registered = true
 		pt := 1
@@ -721,6 +727,12 @@ func (c *c38) silentTopStaked(v vcState, ids []string) []string {
 			}
 		}
 	}
+	for _, a := range prev {
+		// the stake order the contract goes by is the one the harness made (read from the stored DKG list, not used for anything else)
+		if sn := v.DKG.SimpleNodes[a.W.ID]; sn == nil || sn.TotalStaked != a.Stake {
+			panic(fmt.Sprintf("stake of %s in the stored DKG list is not what the harness staked it with (%d)", a.W.Name, a.Stake))
+		}
+	}
 	if len(prev) < 2 {
 		return ids
 	}
@@ -730,7 +742,10 @@ func (c *c38) silentTopStaked(v vcState, ids []string) []string {
 		}
 		return prev[i].W.ID < prev[j].W.ID
 	})
-	s := 1 + c.r.Intn(len(prev)-1)
+	s := 1
+	if c.r.Chance(0.6) {
+		s = 1 + c.r.Intn(len(prev)-1)
+	}
 	for _, a := range prev[:s] {
 		c.silentInPublish[a.W.ID] = true
 	}
@@ -1686,14 +1701,14 @@ func c38Child(tier string, idx int) (code int) {
 	}
 	run.Count("rounds", c.round)
 	run.Count("children_completed", 1)
-	fmt.Printf("C38 child %d done: rounds=%d full_cycles=%d mbs=%d\n", idx, p.Rounds, run.Counter("full_cycles"), c.mbProduced)
+	fmt.Printf("C38 child %d done: rounds=%d full_cycles=%d mbs=%d\n", idx, c.round, run.Counter("full_cycles"), c.mbProduced)
 	run.Checkpoint()
 	return 0
 }
 
 func c38Parent(tier string) int {
 	run := mon.NewRun("C38", tier, "exploration",
-		"block histories on a view-change-enabled chain (4 genesis miners + 2 sharders registered and staked, up to 3 more miners and 1 sharder joining), every block executed through the real Chain.UpdateState and closed by the generator's payFees; per cycle a policy decides who contributes keys / keeps sharders / publishes shares / waits (real DKG polynomials, signatures of the real node keys), hostile DKG transactions are mixed in at any time; 8 further histories (16 in the thorough tier) run with min_n above K (4 miners min_n=4, or 7 known miners min_n=5 registering late) and policies with exactly K contributors / exactly K publishers, so that phases end with their condition holding and their step unable to complete; the phase node, DKG list, keys, shares, keep list and magic block are read back raw from the state trie after every transaction/block; 8 more histories (24 in the thorough tier) register 7 or 8 miners (4 of the previous set, 3-4 newcomers) with max_n 4 or 5, 1-2 seats reserved for the previous set (x_percent) and a different stake for every miner (previous-set miners on top of the stake order and at its bottom, newcomers between, or a random order), so that the final reduction of the DKG set really selects; in most of their cycles every miner contributes a key and the 1..n-1 best staked contributing miners of the previous set (now and then a newcomer too) never publish their shares while the others do; these histories end at their first view change; distinct = (function, phase, input class, outcome) and (transition, policy, payFees variant) tuples")
+		"block histories on a view-change-enabled chain (4 genesis miners + 2 sharders registered and staked, up to 3 more miners and 1 sharder joining), every block executed through the real Chain.UpdateState and closed by the generator's payFees; per cycle a policy decides who contributes keys / keeps sharders / publishes shares / waits (real DKG polynomials, signatures of the real node keys), hostile DKG transactions are mixed in at any time; 8 further histories (16 in the thorough tier) run with min_n above K (4 miners min_n=4, or 7 known miners min_n=5 registering late) and policies with exactly K contributors / exactly K publishers, so that phases end with their condition holding and their step unable to complete; the phase node, DKG list, keys, shares, keep list and magic block are read back raw from the state trie after every transaction/block; 16 more histories (48 in the thorough tier) register 7 or 8 miners (4 of the previous set, 3-4 newcomers) with max_n 4 or 5, 1-2 seats reserved for the previous set (x_percent) and a different stake for every miner (previous-set miners on top of the stake order and at its bottom, newcomers between, or a random order), so that the final reduction of the DKG set really selects; in most of their cycles every miner contributes a key and the 1..n-1 best staked contributing miners of the previous set (now and then a newcomer too) never publish their shares while the others do; these histories end at their first view change; distinct = (function, phase, input class, outcome) and (transition, policy, payFees variant) tuples")
 	n := c38Hists(tier) + c38StepHists(tier) + c38BigHists(tier)
 	var specs []mon.ChildSpec
 	for i := 0; i < n; i++ {
@@ -1720,8 +1735,8 @@ func c38Parent(tier string) int {
 	run.RequireMin("boundary:condition-holds-but-fewer-than-min_n:start", int64(scale(tier, 2, 8)))
 	run.RequireMin("monitor:restart-lands-at-start", int64(scale(tier, 60, 400)))
 	run.RequireMin("monitor:contribute-entry", int64(scale(tier, 100, 800)))
-	run.RequireMin("big-set:magic-block-from-more-publishers-than-max_n", int64(scale(tier, 4, 12)))
-	run.RequireMin("big-set:magic-block-after-best-staked-previous-miners-stayed-silent", int64(scale(tier, 3, 9)))
+	run.RequireMin("big-set:magic-block-from-more-publishers-than-max_n", int64(scale(tier, 6, 18)))
+	run.RequireMin("big-set:magic-block-after-best-staked-previous-miners-stayed-silent", int64(scale(tier, 6, 18)))
 	run.Assume("a reset of the key generation is recognised from the state around one payFees: the phase went back to start, or the public keys gathered so far are gone without the phase having advanced, or the stored restart count grew; the participating miners of a contribute phase are the miners whose add_miner succeeded (nothing in these histories removes a miner)")
 	run.Assume("move conditions are judged as necessary conditions only (elapsed rounds from the contract's PhaseRounds, number of keys / share sets against K, kept sharders against min_s, a previous-set miner among the keys); a restart that the statement would not require is not a violation")
 	run.Assume("the chain's own latest finalized magic block stays the genesis one (no finalization in this world); the contract keeps the magic block of each completed view change in its global node, and the oracle tracks the membership in force from the stored bytes of the magic blocks that blocks actually carried")
